@@ -998,7 +998,7 @@ PATTERNS = ["multi_input", "input_npu_and_cpu", "residual", "lut_reuse", "deep_s
             "casc_s2_valid", "two_npu_islands", "concat_slices", "shared_weights", "big_fm_u65", "avgpool_chain", "minmax_lrelu", "reshape_fork", "widen_ew", "shared_consts"]
 # families defined in netgen_ext.py (imported lazily: that module imports this one)
 EXT_PATTERNS = ["lut_mixed", "shape_out", "transpose_perm", "ew_fork", "fc1_two_core", "near_scale"]
-EXT_PATTERNS += ["multi_out_cpu", "slice_masks"]          # round 5: gen_multiout.py, gen_ssmask.py
+EXT_PATTERNS += ["multi_out_cpu", "slice_masks", "rank_sweep"]          # round 5: gen_multiout.py, gen_ssmask.py, gen_ranksweep.py
 PATTERNS += EXT_PATTERNS
 
 
